@@ -466,6 +466,9 @@ func (ex *Exec) recordWrite(st *State, heap string, ref T) {
 		ex.nimm++
 		ex.vc.oblige("immut", fmt.Sprintf("immut:%s:%s:%d", ex.conName(), heap, ex.nimm), st.guard, Gt(ref, ex.ghostGet(ex.entry, "alloc")), ex.pos(token.NoPos)).SetNote("field declared immutable is written only on objects allocated by this call")
 	}
+	if ex.con != nil && ex.con.AssumedFrame && ex.inlineDepth == 0 {
+		ex.ownWrites = append(ex.ownWrites, nonNilWrite{heap, st.guard, ref})
+	}
 	if ex.P.immutNonNil[heap] && ex.con != nil && !waived {
 		ex.nonNilPending = append(ex.nonNilPending, nonNilWrite{heap, st.guard, ref})
 	}
